@@ -48,7 +48,7 @@ def literal_tokens(path):
 # members are frozen for that module (C19 binds a C struct field to its forwarder by the field's name)
 WHOLE_RECORDS = {"C19": ["SMockSupport_c", "SMockExpectedCall_c", "SMockActualCall_c", "SMockValue_c", "SMockValue_c::(anonymous)"]}
 optional = set(json.load(open("rules/optional_names.json"))) if os.path.exists("rules/optional_names.json") else set()
-members, functions = {}, {}
+members, functions, globs = {}, {}, {}
 qn2fn = {}
 for g in prog.functions.values():
     qn2fn.setdefault(g.qn, g)
@@ -58,7 +58,7 @@ def relevant(mod, toks):
     """what the module is about, read off the functions it analysed on the reference tree (evidence/<mod>.json): the
     data members those functions access and the functions they call (plus themselves), by qualified name"""
     ev = json.load(open("evidence/%s.json" % mod))
-    mem, fun = set(), set()
+    mem, fun, glo = set(), set(), set()
     for q in ev["coverage"].get("functions_analysed", []):
         for g in [x for x in prog.functions.values() if x.qn == q]:
             fun.add(g.qn)
@@ -66,6 +66,8 @@ def relevant(mod, toks):
                 if n["k"] == "MemberExpr" and n.get("qn") and "::" in n["qn"]:
                     c, f = n["qn"].rsplit("::", 1)
                     mem.add((c, f))
+                if n["k"] == "DeclRefExpr" and n.get("global") and n.get("name") in prog.globals:
+                    glo.add(n["name"])
             for c in g.calls():
                 nm = prog.callee_name(g, c)
                 if nm:
@@ -73,7 +75,7 @@ def relevant(mod, toks):
             for i_ in g.d.get("inits", []) or []:
                 if i_.get("field") and g.cls:
                     mem.add((g.cls, i_["field"]))
-    return mem, fun
+    return mem, fun, glo
 
 
 for i in range(1, 21):
@@ -81,11 +83,13 @@ for i in range(1, 21):
     toks = set()
     for m in sources(mod):
         toks |= literal_tokens("rules/%s.py" % m)
-    rel_m, rel_f = relevant(mod, toks)
+    rel_m, rel_f, rel_g = relevant(mod, toks)
+    globs[mod] = sorted(toks & rel_g)
     members[mod] = sorted([c, f] for f in toks & set(fields) for c in fields[f] if (c, f) in rel_m)
     for rec in WHOLE_RECORDS.get(mod, []):
         members[mod] = sorted(members[mod] + [[rec, fl["name"]] for fl in prog.records.get(rec, {}).get("fields", []) if [rec, fl["name"]] not in members[mod]])
     functions[mod] = sorted(q for n in toks & set(funcs) for q in funcs[n] if q not in optional and q in rel_f)
-    print(mod, len(members[mod]), "members,", len(functions[mod]), "functions")
+    print(mod, len(members[mod]), "members,", len(functions[mod]), "functions,", len(globs[mod]), "globals")
 json.dump(members, open("rules/members.json", "w"), indent=0, sort_keys=True)
 json.dump(functions, open("rules/functions.json", "w"), indent=0, sort_keys=True)
+json.dump(globs, open("rules/globals.json", "w"), indent=0, sort_keys=True)
